@@ -51,6 +51,7 @@ type c17Case struct {
 	Max   int       `json:"max"`
 	Strip bool      `json:"strip"`
 	Pad   int       `json:"pad"` // REST part only: old review comments of somebody else that precede all others
+	Showdup bool    `json:"showdup"` // --show-duplicates: problems folded by Summary.Dedup get their own comments
 	Padf  int       `json:"padf"` // REST part only: other changed files listed before the rule files
 	Seeds []c17Seed `json:"seeds"`
 	Runs  []c17Run  `json:"runs"`
@@ -59,9 +60,13 @@ type c17Case struct {
 // ---- the problem universe of spec/CommentSync.tla, as rule files
 var c17Summary = map[string]string{
 	"S1": "redundant regexp", "S2": "redundant regexp anchors", "S3": "template uses non-existent label",
+	"S5": "use humanize filters for the results", "S6": "use humanize filters for the results",
 }
-var c17ProbSum = map[string]string{"P1": "S1", "P2": "S2", "P3": "S3", "P4": "S2"}
-var c17ProbFile = map[string]string{"P1": "F1", "P2": "F1", "P3": "F1", "P4": "F2"}
+
+// P5 and P6 have the same summary; their comments differ in the annotation line they quote
+var c17Quote = map[string]string{"S5": "rate is {{ $value }}", "S6": "it is {{ $value }}"}
+var c17ProbSum = map[string]string{"P1": "S1", "P2": "S2", "P3": "S3", "P4": "S2", "P5": "S5", "P6": "S6"}
+var c17ProbFile = map[string]string{"P1": "F1", "P2": "F1", "P3": "F1", "P4": "F2", "P5": "F1", "P6": "F1"}
 var c17FileName = map[string]string{"F1": "rules1.yml", "F2": "rules2.yml"}
 
 func c17Pick(on bool, a, b string) string {
@@ -84,7 +89,10 @@ func c17Render(file string, on map[string]bool, shift int) string {
 			"      up{"+c17Pick(on["P1"], `instance=~"bar"`, `instance="bar"`)+"} > 0",
 			"    annotations:", "      summary: x",
 			"  - alert: A2", "    expr: sum(up) by(job) > 0", "    annotations:",
-			"      summary: '{{ $labels."+c17Pick(on["P3"], "instance", "job")+" }}'")
+			"      summary: '{{ $labels."+c17Pick(on["P3"], "instance", "job")+" }}'",
+			"  - alert: A3", "    expr: rate(errors_total[5m]) > 0", "    annotations:",
+			"      summary: 'rate is {{ $value"+c17Pick(on["P5"], "", " | humanize")+" }}'",
+			"      details: 'it is {{ $value"+c17Pick(on["P6"], "", " | humanize")+" }}'")
 	} else {
 		l = append(l,
 			"groups:", "- name: g2", "  rules:", "  - alert: B1",
@@ -104,6 +112,11 @@ func c17Carries(text string) []string {
 				out = append(out, code)
 				break
 			}
+		}
+	}
+	for _, code := range []string{"S5", "S6"} {
+		if strings.Contains(text, "<summary>"+c17Summary[code]+"</summary>") && strings.Contains(text, c17Quote[code]) {
+			out = append(out, code)
 		}
 	}
 	return out
@@ -166,6 +179,12 @@ func c17DoLint(dir string, on map[string]bool, v c17Var) (c17Lint, error) {
 		for p, sc := range c17ProbSum {
 			if c17ProbFile[p] == f && c17Summary[sc] == rr.Problem.Summary {
 				id = p
+			}
+		}
+		if id == "P5" || id == "P6" { // same summary: told apart by the annotation line their range ends on
+			id = "P5"
+			if rr.Problem.Lines.Last-rr.Problem.Lines.First == 3 {
+				id = "P6"
 			}
 		}
 		if id == "" {
@@ -397,7 +416,8 @@ func c17SeedText(dir string, t c17Text) (string, error) {
 	// the pending comment of that file spelling out these problems; a changed makeComments may spell out
 	// fewer - then the closest one stands in (JUDGE reports the difference as drift, not as a violation)
 	best, bestN := "", -1
-	for _, p := range reporter.VerifMakeComments(lr.summary, false) {
+	showDup := want["S5"] || want["S6"]
+	for _, p := range reporter.VerifMakeComments(lr.summary, showDup) {
 		path, text, _, _ := reporter.VerifPendingFields(p)
 		if c17AbsPath(path) != c17ProbFile[t.M[0]] {
 			continue
@@ -463,7 +483,7 @@ func c17RunCase(id int, cs c17Case, emit func(any)) error {
 		}
 		seeds = append(seeds, seedRec{in.comment(c), at})
 	}
-	emit(map[string]any{"ev": "Case", "id": id, "plat": cs.Plat, "max": cs.Max, "strip": cs.Strip, "pad": 0, "padf": 0, "store": seeds})
+	emit(map[string]any{"ev": "Case", "id": id, "plat": cs.Plat, "max": cs.Max, "strip": cs.Strip, "pad": 0, "padf": 0, "showdup": cs.Showdup, "store": seeds})
 	for rn, run := range cs.Runs {
 		on := map[string]bool{}
 		for _, p := range run.Reports {
@@ -487,11 +507,11 @@ func c17RunCase(id int, cs c17Case, emit func(any)) error {
 		if cs.Plat == "github" {
 			m.dst = reporter.VerifGithubDestination(files)
 		}
-		m.pending = reporter.VerifMakeComments(lr.summary, false)
+		m.pending = reporter.VerifMakeComments(lr.summary, cs.Showdup)
 		m.usedP = map[int]bool{}
 		m.before, m.listed, m.calls, m.creates, m.deleted, m.isEqual = nil, []int{}, []c17Call{}, nil, []int{}, 0
 		errStr := ""
-		if err := reporter.Submit(context.Background(), lr.summary, m, false); err != nil {
+		if err := reporter.Submit(context.Background(), lr.summary, m, cs.Showdup); err != nil {
 			errStr = err.Error()
 		}
 		type pendRec struct {
